@@ -9,3 +9,4 @@ CONSTANTS
   Listeners <- L0
   MaxUser = 0
   Waits <- W0
+  Timed = FALSE
